@@ -148,6 +148,9 @@ API_WRITERS = ['write_pdb', 'write_gro', 'write_gmx_topology', 'write_atomtypes'
 def _tiny_system():
     import numpy as np
     import vermouth
+    import vermouth.forcefield
+    import vermouth.molecule
+    import vermouth.system
     from vermouth.gmx.topology import Atomtype, NonbondParam
     ff = vermouth.forcefield.ForceField(name='testff')
     mol = vermouth.molecule.Molecule(force_field=ff, nrexcl=1)
